@@ -194,7 +194,11 @@ func VfCopyAccessSameBucket() {
 	acl := auth.ACL{Owner: "owner"}
 	aclBytes, _ := json.Marshal(acl)
 	zzvfbe.Hooks["GetBucketAcl"] = func(rec *zzvfbe.Recorder, args []any) (any, error) { return aclBytes, nil }
-	err := auth.VerifyObjectCopyAccess(context.Background(), be, "bkt/srcobj", auth.AccessOptions{
+	source := "bkt/srcobj"
+	if zzvf.Choice("source_names_a_version", 2) == 1 {
+		source += "?versionId=v1" // the decision is about the key, whatever version of it is copied
+	}
+	err := auth.VerifyObjectCopyAccess(context.Background(), be, source, auth.AccessOptions{
 		Acl: acl, AclPermission: auth.PermissionWrite, IsRoot: false, Acc: auth.Account{Access: who, Role: auth.RoleUser},
 		Bucket: "bkt", Object: "dstobj", Action: auth.PutObjectAction,
 	})
